@@ -90,7 +90,11 @@ class MF(State):  # a metric whose instances are falsy: presence must not be dec
         return False
 
 
-METRICS = {"MA": MA, "MB": MB, "MC": MC, "MF": MF}
+class MA2(MA):  # metrics are kept per EXACT type: a subclass is a different metric
+    pass
+
+
+METRICS = {"MA": MA, "MB": MB, "MC": MC, "MF": MF, "MA2": MA2}
 
 
 class MergeErr(Exception):
@@ -493,6 +497,10 @@ class Double:
             res = self.run.inst((self.path, "d", self.j, 0), y)
         else:
             res = [self.run.inst((self.path, "d", self.j, i), sv) for i, sv in enumerate(y)]
+            if self.spec.get("as") == "iter":
+                res = iter(res)  # a one-shot iterable is a legal Iterable[State]
+            elif self.spec.get("as") == "gen":
+                res = (x for x in res)
         self.run.ev("d_enter_done", self.path, j=self.j)
         return res
 
@@ -500,7 +508,8 @@ class Double:
         self.run.ev("d_exit_call", self.path, j=self.j, et=et, exc=ev, has_tb=tb is not None)
         await self._behave("exit", self.spec["exit"])
         self.run.ev("d_exit_done", self.path, j=self.j)
-        return None
+        # some context managers report "handled"/"closed" by returning True; scopes document no suppression
+        return True if self.spec["exit"].get("ret") else None
 
 
 def execute(prog, inject_at=None, releases=(), run_cls=Run, after=None):
@@ -609,7 +618,9 @@ def simple_disp_strategy():
 
     ys = st.one_of(st.none(), sv_strategy(), st.lists(sv_strategy(), min_size=0, max_size=2))
     beh = st.sampled_from([OK_BEH, OK_BEH, {"b": "suspend_ok", "t": 0.5}])
-    return st.builds(lambda e, y, x: {"enter": e, "yields": y, "exit": x}, beh, ys, beh)
+    return st.builds(
+        lambda e, y, x, a: {"enter": e, "yields": y, "exit": x, "as": a}, beh, ys, beh, st.sampled_from(["list", "list", "iter", "gen"])
+    )
 
 
 def walk_blocks(ops, path=()):
